@@ -1342,7 +1342,8 @@ def c07_execs(r, quick, rec):
                 wss = (0, 0, 3, 3) if k % 2 else (3, 0, 3, 0)
                 for e in range(3 if quick else 4):
                     cmds.append({"op": "evaluate", "obj": 1, "x": gen.hv(p.x(r)), "ws": wss[e], "costs": gen.cost_params(r),
-                                 "overload": 3 if (k + e) % 4 else 2, "rec": bool(rec and K <= 8 and e == 0)})
+                                 "overload": 3 if (k + e) % 4 else 2, "rec": bool(rec and K <= 8 and e == 0),
+                                 "gout": ("fresh", "dirty", "reuse", "big", "reuse")[(k + e) % 5]})
                 execs.append((N * D * (order + 1) * (K + 4), cmds))
     return execs
 
